@@ -1107,7 +1107,8 @@ int cif_container_get_value(
                             }
 
                             FAILURE_HANDLER(inner):
-                            free(temp);
+                            /* releases any parts of the value that were successfully retrieved */
+                            cif_value_free(temp);
                         }
 
                         sqlite3_reset(cif->get_value_stmt);
